@@ -506,9 +506,21 @@ def rule_r8(chk, rid="C06-R8"):
         cb = kws[0]
         if isinstance(cb, ast.Name):
             cb = assign_value(f, cb.id) or cb
-        if not isinstance(cb, ast.Lambda):
+        # a callback chosen by a condition: every alternative has to satisfy the clause
+        alts = [cb]
+        while any(isinstance(x, ast.IfExp) for x in alts):
+            alts = [y for x in alts for y in ([x.body, x.orelse] if isinstance(x, ast.IfExp) else [x])]
+        if not all(isinstance(x, ast.Lambda) for x in alts):
             chk.undecided(rid, f"{short}.create_frames[get_simulation_end]", "callback is not a lambda", m.loc(f))
             continue
+        if len(alts) > 1 and kind == "base":
+            offending = [x for x in alts if not squash(inline_locals(f, x.body)).endswith(".base_periods[-1]")]
+            if offending:
+                chk.ob(rid, f"{short}.create_frames[get_simulation_end]", False,
+                       f"one of the conditional callbacks returns {unparse(offending[0].body)}: under that condition a frame is simulated only to its own end, "
+                       "so shocks known beyond it are not foreseen", m.loc(offending[0]), sure=True)
+                continue
+        cb = alts[0]
         body = inline_locals(f, cb.body)
         txt = squash(body)
         a = cb.args
